@@ -66,17 +66,43 @@ def random_history(rng, n, decades):
     return gyr, np.array(acc), np.array(mag)
 
 
+SINGLE_FRAME = ("Tilt", "TRIAD", "Davenport", "QUEST", "FLAE", "OLEQ", "SAAM", "FAMC", "FQA")
+
+
+def sweep_history(rng, n):
+    """physically INCONSISTENT samples whose accelerometer / magnetometer mutual angle sweeps (1, 179) degrees in n equal steps
+    (thin bands of that angle are where closed-form roots change branch)"""
+    acc, mag = [], []
+    a = rng.normal(size=3)
+    a /= np.linalg.norm(a)
+    for k in range(n):
+        th = math.radians(1.0 + 178.0 * (k + 0.5) / n)
+        p = rng.normal(size=3)
+        p -= (p @ a) * a
+        p /= np.linalg.norm(p)
+        acc.append(a * 9.81)
+        mag.append((math.cos(th) * a + math.sin(th) * p) * 48.0)
+        if k % 97 == 96:
+            a = rng.normal(size=3)
+            a /= np.linalg.norm(a)
+    return rng.normal(size=(n, 3)) * 0.2, np.array(acc), np.array(mag)
+
+
 def run_cfg(args):
     cfgs, seed, lengths, nseeds = args
     t = Tally()
     t.events = []
     for cfg in cfgs:
         cname = "%s|%s" % (cfg["f"], "|".join(cfg[k] for k in ("arch", "frame", "rep", "mode") if cfg[k] != "-"))
-        for hc in HIST_CLASSES:
-            for n in lengths:
+        for hc in HIST_CLASSES + ["angle-sweep"]:
+            for n in (lengths if hc != "angle-sweep" else ((3560 if len(lengths) > 2 else 1780) if cfg["f"] in SINGLE_FRAME else 356,)):
                 for s in range(nseeds if hc in ("random", "decades") else 2):
                     rng = core.rng(seed, "c03", cname, cfg["gain"], cfg["rate"], hc, n, s)
-                    if hc in ("random", "decades"):
+                    if hc == "angle-sweep":
+                        if s > 0:
+                            continue
+                        gyr, acc, mag = sweep_history(rng, n)
+                    elif hc in ("random", "decades"):
                         gyr, acc, mag = random_history(rng, n, hc == "decades")
                     else:
                         acc, mag = pose_history(hc, s, n)
@@ -86,7 +112,7 @@ def run_cfg(args):
                     built = []
                     o = core.outcome(lambda: (built.append(FL.batch(cfg, gyr, acc, mag)), built[0][1])[1])
                     case = {"cfg": cfg, "history": hc, "n": n, "variant": s, "acc0": acc[0], "mag0": mag[0]}
-                    pose = "canonical-pose" if hc not in ("random", "decades") else "random"
+                    pose = "canonical-pose" if hc not in ("random", "decades", "angle-sweep") else "random"
                     case["pose"] = hc
                     if o[0] != "ok":
                         t.fail("C03|%s|raises-%s|%s" % (cname, o[1], pose), dict(case, err=o[2]))
@@ -118,7 +144,7 @@ def run_cfg(args):
 
 def run(chk):
     quick = chk.tier == "quick"
-    chk.rule = ("every configuration of the TLC-enumerated catalogue x 11 history classes (seeded random, magnitudes over decades, 7 "
+    chk.rule = ("every configuration of the TLC-enumerated catalogue x 12 history classes (seeded random, magnitudes over decades, a sweep of the acc/mag mutual angle over (1, 179) degrees in 0.1 / 0.05 degree steps, 7 "
                 "exact canonical pose families and pure-pitch / pure-roll sweeps at 12 headings in 2 measurement conventions; recursive "
                 "filters additionally serve one IMU and one MARG update on the batch-built object) x lengths; distinct = distinct "
                 "(configuration, history class, length, variant); all non-trivial (no identity-only histories)")
